@@ -419,6 +419,15 @@ def execute_cov(rec, focus):
                     break
                 if focus in ("C12", "C13") and not coverage_all("after sample %d" % oi):
                     break
+            elif k == "query":
+                # coverage queries between samples (no judgement here: they are the perturbation)
+                if op["i"] < len(insts):
+                    it = insts[op["i"]]
+                    it.obj.get_coverage()
+                    it.obj.get_inst_coverage()
+                    for n in it.ref.cp_order:
+                        getattr(it.obj, n).get_coverage()
+                    stats["queries"] = stats.get("queries", 0) + 1
             elif k == "get_cov":
                 if not coverage_all("op %d" % oi):
                     break
